@@ -7,6 +7,9 @@ precondition does not hold:
   at          `.at(` / `->at(`                      (std::out_of_range)
   get         `std::get<` on a variant              (std::bad_variant_access)
   getif       result of `std::get_if<` dereferenced without a test in between
+  ptrderef    result of a function of these sources that returns a pointer (`get_encoding`,
+              `find_composite_element`, ...) dereferenced without a test: `*f(..)`, `f(..)->`,
+              or `x = f(..)` followed by `*x` / `x->` with no test of x in between
   optderef    `*x` / `x->` on a `std::optional`     (UB / libstdc++ assertion)
   optvalue    `.value()`                            (std::bad_optional_access)
   assert      `assert(`                             (abort in checked builds)
@@ -244,6 +247,50 @@ def find_getif_derefs(body, base):
     return out
 
 
+PTR_FN = re.compile(r'\*\s*\n?\s*(\w+)\s*\(\s*(?:const\b|std::|sbe::|[A-Za-z_][\w:<>]*\s*[&*]?\s*\w+\s*[,)]|\))')
+
+
+def pointer_functions(codes):
+    """names of functions defined in the sources whose return type is a pointer"""
+    out = set()
+    for code in codes.values():
+        for m in re.finditer(r'(?:const\s+)?[\w:]+(?:<[^;{}()]*>)?\s*\*\s*\n?\s*(\w+)\s*\([^;{}]*\)\s*(?:const\s*)?(?:noexcept\s*)?\{', code):
+            out.add(m.group(1))
+    return out - {'if', 'for', 'while', 'switch', 'return'}
+
+
+def find_ptr_derefs(body, base, fns):
+    out = []
+    if not fns:
+        return out
+    alt = '|'.join(sorted(map(re.escape, fns)))
+    call = r'(?:\b\w+\s*(?:::|\.|->)\s*)*\b(?:%s)\s*\(' % alt
+    # direct: *f(...)   f(...)->
+    for m in re.finditer(r'(?<![\w\)\]])\*\s*' + call, body):
+        out.append(base + m.start())
+    for m in re.finditer(call, body):
+        try:
+            close = match_paren(body, m.end() - 1)
+        except ValueError:
+            continue
+        if re.match(r'\s*->', body[close + 1:close + 6]):
+            out.append(base + m.start())
+    # through a variable
+    for m in re.finditer(r'\b(\w+)\s*=\s*' + call, body):
+        var = m.group(1)
+        if re.search(r'\bif\s*\(\s*(?:const\s+)?auto\s*\*?\s*$', body[:m.start(1)]):
+            continue
+        rest = body[m.end():]
+        d = re.search(r'(?<![\w.>])\*\s*%s\b(?!\s*\()|\b%s\s*->' % (var, var), rest)
+        if not d:
+            continue
+        between = rest[:d.start()]
+        tested = re.search(r'!\s*%s\b|\bif\s*\(\s*%s\s*[)&|]|\b%s\s*(?:\?|&&|\|\||[!=]=)|assert\s*\(\s*%s\s*[)&]' % (var, var, var, var), between)
+        if not tested:
+            out.append(base + m.end() + d.start())
+    return sorted(set(out))
+
+
 def find_opt_derefs(body, base, names):
     out = []
     if not names:
@@ -405,6 +452,7 @@ def scan(repo):
         raws[f] = open(os.path.join(d, f), encoding='utf-8').read()
         codes[f] = blank(raws[f])
     opt_names, opt_fns = optional_names(codes)
+    ptr_fns = pointer_functions(codes)
     sites = []
     nfun = 0
     for f in files:
@@ -421,6 +469,8 @@ def scan(repo):
                     found.append((s + m.start(), kind, name))
             for p in find_getif_derefs(body, s):
                 found.append((p, 'getif', name))
+            for p in find_ptr_derefs(body, s, ptr_fns):
+                found.append((p, 'ptrderef', name))
             locs = optional_locals(body, opt_fns)
             for p in find_opt_derefs(body, s, opt_names | locs):
                 found.append((p, 'optderef', name))
@@ -458,7 +508,7 @@ def scan(repo):
             if seen[key] > 1:
                 text = '%s #%d' % (text, seen[key])
             sites.append((f, fn, kind, line, text))
-    return sites, {'files': files, 'functions': nfun, 'optional_names': sorted(opt_names),
+    return sites, {'files': files, 'functions': nfun, 'pointer_functions': sorted(ptr_fns), 'optional_names': sorted(opt_names),
                    'optional_functions': sorted(opt_fns)}
 
 
